@@ -45,6 +45,14 @@ def run(ctx):
                 break
         ctx.case(("lb", use_c, dtwmon.flat(l1), dtwmon.flat(l2), dtwmon.settings_key(kw)),
                  min(len(l1), len(l2)) >= 2 and float(result) > 0)
+        # the documented LB_Keogh value itself (envelope of the second series over the DTW band)
+        if isinstance(base.get("inner_dist", "squared euclidean"), str) and l1 and not isinstance(l1[0], list) \
+                and not kw.get("max_dist") and not kw.get("max_step"):
+            inn_ = oracle.INNER[(base.get("inner_dist", "squared euclidean"), False)]
+            want_lb = oracle.ref_lb_keogh(l1, l2, base.get("window"), inn_.dist, inn_.result)
+            ctx.count("lb_reference_checks")
+            if not oracle.close(float(result), want_lb):
+                ctx.violation("lb-differs-from-definition", lb=float(result), reference=want_lb, **wit)
         # engines agree
         try:
             other = dtw.lb_keogh(np.array(l1), np.array(l2), use_c=not use_c, **base)
